@@ -63,6 +63,30 @@ pub fn check_roundtrip(c: &RtCase) -> Result<(), String> {
     let path = path_bytes(&c.path);
     let hx = hex(&c.hash);
     let line = printed_line(&path, c.tag, &hx, c.term);
+    // what is printed for ONE path is ONE physical line, whatever the path is (valid UTF-8 or not): the documented
+    // escaping (backslash, LF, CR -> two characters each, marker backslash at the start of the line) applies to the
+    // lossy UTF-8 form of the path
+    let body = match c.term % 3 {
+        0 => &line[..],
+        1 => &line[..line.len() - 1],
+        _ => &line[..line.len() - 2],
+    };
+    ensure!(!body.contains('\n') && !body.contains('\r'), "the line printed for path {:?} contains a raw line break: {:?}", String::from_utf8_lossy(&path), line);
+    {
+        let lossy = String::from_utf8_lossy(&path).to_string();
+        let needs = lossy.contains('\\') || lossy.contains('\n') || lossy.contains('\r');
+        let mut model = String::new();
+        for ch in lossy.chars() {
+            match ch {
+                '\\' if needs => model.push_str("\\\\"),
+                '\n' if needs => model.push_str("\\n"),
+                '\r' if needs => model.push_str("\\r"),
+                other => model.push(other),
+            }
+        }
+        let want = format!("{}{}", if needs { "\\" } else { "" }, if c.tag { format!("BLAKE3 ({}) = {}", model, hx) } else { format!("{}  {}", hx, model) });
+        ensure!(body == want, "path {:?} is printed as {:?}, the documented form is {:?}", String::from_utf8_lossy(&path), body, want);
+    }
     let r = probe::parse_check_line(&line);
     if representable(&path) {
         let p = r.map_err(|e| format!("b3sum cannot check its own output: line {:?} for path {:?} is rejected: {}", line, String::from_utf8_lossy(&path), e))?;
@@ -360,7 +384,7 @@ pub fn subs() -> Vec<Box<dyn DynSub>> {
     vec![
         Box::new(PropSub::<RtCase> {
             name: "round-trip",
-            rule: "proptest: path = 1-14 symbols from a hostile alphabet (letters, ' ', two spaces, ') = ', 'BLAKE3 (', backslash, LF, CR, literal backslash-n, tab, 2-4 byte UTF-8, U+FFFD, NUL, lone 0x80/0xFF, truncated sequence, ...) x {plain, --tag} x {no terminator, LF, CRLF}; the line is built by b3sum's own filepath_to_string with the printer's format strings and fed to b3sum's own parse_check_line; oracle: representable path (valid UTF-8, no NUL/U+FFFD) => Ok with exactly that path and hash, otherwise Err; an Ok never yields a different path; non-trivial = separator look-alike, escape or non-ASCII in the path",
+            rule: "proptest: path = 1-14 symbols from a hostile alphabet (letters, ' ', two spaces, ') = ', 'BLAKE3 (', backslash, LF, CR, literal backslash-n, tab, 2-4 byte UTF-8, U+FFFD, NUL, lone 0x80/0xFF, truncated sequence, ...) x {plain, --tag} x {no terminator, LF, CRLF}; the line is built by b3sum's own filepath_to_string with the printer's format strings and fed to b3sum's own parse_check_line; oracle: the printed text is one physical line in the documented escaped form for EVERY path (also invalid UTF-8); representable path (valid UTF-8, no NUL/U+FFFD) => Ok with exactly that path and hash, otherwise Err; an Ok never yields a different path; non-trivial = separator look-alike, escape or non-ASCII in the path",
             cases: (200_000, 2_000_000),
             strategy: rt_strategy,
             classify: classify_roundtrip,
